@@ -215,3 +215,39 @@ Theorem C13_loops_rs_match_model dbg w lg : 0 <= lg -> w = 2 ^ lg ->
   match Convert.U_from_uint dbg pb w n int with Ret r => Done r | Panic => Panicked end.
 Proof. exact (loops_C13_match_model dbg w lg). Qed.
 Print Assumptions C13_loops_rs_match_model.
+(* ---- tie to the source, bnum -> primitive (TryFrom): try_from_buint! of /repo/src/buint/convert.rs (`impl TryFrom<$BUint<N>> for
+   $int`, $int = every primitive integer type), int_try_from_bint! (`impl TryFrom<$BInt<N>> for $int`, signed $int only: ps = true)
+   and uint_try_from_bint! (`impl TryFrom<$BInt<N>> for $uint`, unsigned only: ps = false) of /repo/src/bint/convert.rs
+   (pb = <$int>::BITS, ps = signedness, instantiation lists checked; the accumulator handled as its pb-bit pattern, vocabulary
+   Model/ImpConv.v), REGENERATED on every run (Generated/ConvGen.v, tools/rs2v_conv.py), compute exactly the model's
+   U_try_to_prim / I_try_to_iprim / I_try_to_uprim - both branches of `$Digit::BITS > <$int>::BITS`, the `loop { .. break }`s, the
+   sign tests and the scan of the remaining digits - for both values of the model's overflow-check flag, every power-of-two
+   digit width and a budget > N (one unit to reach the `break`). ---- *)
+From Bnum.Generated Require Import ConvGen.
+From Bnum.Proofs Require Import ConvGenTieC13.
+Theorem C13_conv_rs_matches_model dbg w lg : 0 <= lg -> w = 2 ^ lg ->
+  forall n pb ds fuel, 0 < pb -> length ds = n -> (S n <= fuel)%nat ->
+  (forall ps, ConvGen.try_from_buint w (Z.of_nat n) fuel pb ps ds =
+     match Convert.U_try_to_prim dbg pb ps w ds with Ret r => Done r | Panic => Panicked end) /\
+  ConvGen.int_try_from_bint w (Z.of_nat n) fuel pb true ds =
+    match Convert.I_try_to_iprim dbg pb w ds with Ret r => Done r | Panic => Panicked end /\
+  ConvGen.uint_try_from_bint w (Z.of_nat n) fuel pb false ds =
+    match Convert.I_try_to_uprim dbg pb w ds with Ret r => Done r | Panic => Panicked end.
+Proof. exact (conv_C13_match_model dbg w lg). Qed.
+Print Assumptions C13_conv_rs_matches_model.
+(* ---- tie to the source, primitive -> bnum (From / TryFrom): from_int! (`impl From<$int> for $BInt<N>`, signed $int) and from_uint!
+   (`impl From<$from> for $BInt<N>`, unsigned) of /repo/src/bint/convert.rs and try_from_iint! (`impl TryFrom<$int> for $BUint<N>`,
+   pairs iN -> uN of the same width) of /repo/src/buint/convert.rs, REGENERATED on every run (Generated/ConvGen.v,
+   tools/rs2v_conv.py; pb = <$int>::BITS, the parameter handled as its value), compute exactly the model's I_from_iint / I_from_uint
+   / U_try_from_iint for both values of the debug flag; `$BUint::from(..)` inside the last two is the model's U_from_uint, whose
+   own tie is C13_loops_rs_match_model above. ---- *)
+Theorem C13_conv_from_rs_matches_model dbg w lg : 0 <= lg -> w = 2 ^ lg ->
+  forall n pb int fuel, 0 < pb -> (Z.to_nat pb <= fuel)%nat ->
+  ConvGen.bint_from_int w (Z.of_nat n) fuel pb int =
+    match Convert.I_from_iint dbg pb w n int with Ret r => Done r | Panic => Panicked end /\
+  ConvGen.bint_from_uint dbg w (Z.of_nat n) fuel pb int =
+    match Convert.I_from_uint dbg pb w n int with Ret r => Done r | Panic => Panicked end /\
+  ConvGen.try_from_iint dbg w (Z.of_nat n) fuel pb int =
+    match Convert.U_try_from_iint dbg pb w n int with Ret r => Done r | Panic => Panicked end.
+Proof. exact (conv_C13_from_match_model dbg w lg). Qed.
+Print Assumptions C13_conv_from_rs_matches_model.
